@@ -22,7 +22,7 @@ CLAIMS = {
          "PICC model = ISO/IEC 14443-4 rules as in DESIGN Appendix A; faults on the S(WTX) exchange itself are only held to the outcome-type clause"),
  "C16": ("fault_enumeration", "8.C16", "deterministic simulation: error bursts (kind x length 1..4) injected at every exchange index of every tag operation",
          "Each seeded (tag class, layout, operation) scenario is dry-run to record its transcript, then re-run with one burst at every exchange index: outcome type (result / TagCommandError / documented None-False), errno for persisting errors on primitives, absorbed bursts must reproduce the fault-free result and command transcript.",
-         "retry budgets taken from the implementation (3 attempts T1/T2/T3, n_retry T4; ISO-DEP does not retry protocol errors); vendor classes (NTAG, FeliCa Lite) join when their models exist"),
+         "retry budgets taken from the implementation (3 attempts T1/T2/T3, n_retry T4; ISO-DEP does not retry protocol errors); vendor variants covered: NTAG21x and FeliCa Lite/Lite-S (other vendor classes have no silicon model)"),
  "C05": ("exploration", "8.C05", "deterministic simulation: two real LLCs over a pipe MAC; stepped interleavings and seeded thread schedules with pre-emption; sliding-window reference model on the wire",
          "Seeded exploration of (a) stepped interleavings of send/recv/poll/busy/link-step operations and (b) thread schedules of blocking application threads against the two real llc.run() loops (pre-emption at synchronisation operations and at source lines of nfc.llcp.tco/llc, stalls in virtual time): delivery exactly once and in order per sender, and every I/RR/RNR on the wire checked against a reference window model (N(S) sequence, outstanding <= announced RW, N(R) never acknowledges unsent PDUs, payload <= MIU).",
          "RW in 1..15 as quantified; pre-emption granularity is one source line; the link loops are switched but not stalled (a stalled loop is an LTO expiry, C09's subject)"),
